@@ -320,6 +320,19 @@ def expect_ragged(out, exp_rows, what, exp_dtype=None, empty_dtype=False, **info
                         got=jsonable([x.tolist() for x in rows]), **info)
     if exp_dtype is not None and (sum(exp_lens) > 0 or len(exp_lens) > 0 or empty_dtype or _EMPTY_DTYPE_EXPERIMENT) and np.dtype(v.dtype) != np.dtype(exp_dtype):
         raise Violation(what + ":dtype", expected=str(np.dtype(exp_dtype)), got=str(v.dtype), **info)
+    # the other ways of reading the same result agree with its iteration: size, shape, flat view, tolist
+    sec = lib(lambda: (int(v.size), v.shape[0], [int(x) for x in v.shape[1]] if len(v.shape) > 1 and not isinstance(v.shape[1], (int, np.integer)) else None,
+                       np.asarray(v.ravel()), v.tolist()))
+    if not sec.ok:
+        raise Violation(what + ":result-unreadable", how="size / shape / ravel / tolist", got=sec.brief(), **info)
+    size, n0, shape1, flat, tl = sec.value
+    flat_exp = [x for r in rows for x in r.tolist()]
+    if size != sum(exp_lens) or n0 != len(exp_rows) or (shape1 is not None and shape1 != exp_lens):
+        raise Violation(what + ":size-or-shape", expected=[sum(exp_lens), len(exp_rows), exp_lens], got=[size, n0, shape1], **info)
+    if flat.shape != (sum(exp_lens),) or not rows_equal([flat], [np.concatenate([np.zeros(0, dtype=flat.dtype)] + list(rows))]):
+        raise Violation(what + ":flat-view", expected=jsonable(flat_exp), got=jsonable(flat), **info)
+    if len(tl) != len(rows) or not rows_equal([np.asarray(t, dtype=r.dtype) for t, r in zip(tl, rows)], rows):
+        raise Violation(what + ":tolist", expected=jsonable([r.tolist() for r in rows]), got=jsonable(tl), **info)
 
 
 def expect_array(out, exp, what, check_dtype=True, empty_dtype=False, **info):
